@@ -7,7 +7,10 @@ updated holds its previous or its new value (never missing when it existed befor
 record is untouched.
 """
 import os
+import sys
+import json
 import shutil
+import subprocess
 
 from .. import compat  # noqa: F401
 from ..core import Outcome
@@ -33,11 +36,15 @@ RULE = ("generated scripts of 1-14 operations over the store API (save/replace i
         "in-memory parties, KeyHelper prekeys, group sender keys); after every op the touched record is read back, after every "
         "reopen and at the end the whole store is compared with the dict model; every mutating op runs under the crash-point "
         "recorder and every distinct on-disk state is reopened and compared (previous or new value), and so is the on-disk state right "
-        "after the call returned (new value). Non-trivial = a replace of an existing identity, "
+        "after the call returned (new value). Syscall-level crash points: one update of the script (generated position; a sweep over "
+        "every position for seven fixed scripts) is also run in a process of its own under strace and killed (SIGKILL) at one of its "
+        "write-type system calls (pwrite/fdatasync/unlink..., also inside SQLite's COMMIT); the directory it leaves is reopened with "
+        "the store class, compared the same way and checked with PRAGMA integrity_check. Non-trivial = a replace of an existing identity, "
         "session or sender key with >= 2 crash states, or a reopen after a delete. evaluations counts scripts plus crash states; "
         "distinct = distinct canonical JSON of the script.")
 ASSUMPTIONS = [
-    "crash model: process death at C-level call boundaries; SQLite's own atomic commit and journal recovery are trusted",
+    "crash model: process death at C-level call boundaries (in-process recorder) and at write-type system calls (strace "
+    "injection of SIGKILL, when ptrace is permitted; otherwise labelled syscall_crash_unavailable); no power loss, no torn write",
     "device id 1 and numeric recipient ids, as every caller in the library uses; a session under device id 2 is only tried to see that "
     "the session of device 1 survives it (read_store reads device 1)",
     "the manager never stores a one-time or signed prekey under an id that is taken (it continues after the highest id); the scripts "
@@ -195,6 +202,100 @@ def _close(store):
         pass
 
 
+_strace_ok = []
+WRITE_CALLS = "pwrite64,pwritev,write,fdatasync,fsync,ftruncate,unlink,unlinkat,rename,renameat"
+
+
+def strace_available():
+    if not _strace_ok:
+        try:
+            r = subprocess.run(["strace", "-o", "/dev/null", "-e", "trace=" + WRITE_CALLS, "-e", "inject=unlink:signal=SIGKILL:when=99",
+                                "/bin/true"], stdout=subprocess.PIPE, stderr=subprocess.PIPE, timeout=20)
+            _strace_ok.append(r.returncode == 0)
+        except Exception:
+            _strace_ok.append(False)
+    return _strace_ok[0]
+
+
+def _syscall_crash(out, dbdir, home, spec, selector, kind, P, exp_before, own, allow):
+    """returns True when a violation was recorded"""
+    if not strace_available():
+        out.label("syscall_crash_unavailable")
+        return False
+    child = os.path.join(os.path.dirname(os.path.dirname(os.path.abspath(__file__))), "kit", "store_child.py")
+    env = dict(os.environ, PYTHONDONTWRITEBYTECODE="1")
+
+    def attempt(n, name):
+        work = os.path.join(home, name)
+        shutil.copytree(dbdir, work)
+        sp = dict(spec, db=os.path.join(work, "axolotl.db"))
+        with open(os.path.join(home, name + ".json"), "w") as f:
+            json.dump(sp, f)
+        log = os.path.join(home, name + ".trace")
+        cmd = ["strace", "-f", "-o", log, "-e", "trace=" + WRITE_CALLS]
+        if n:
+            # strace counts per system call: the n-th write-type call of the run is the k-th call of its own kind
+            cmd += ["-e", "inject=%s:signal=SIGKILL:when=%d" % n]
+        r = subprocess.run(cmd + [sys.executable, child, os.path.join(home, name + ".json")], env=env, stdout=subprocess.PIPE,
+                           stderr=subprocess.PIPE, timeout=120)
+        calls = []
+        try:
+            with open(log) as f:
+                for line in f:
+                    parts = line.split(None, 1)
+                    if len(parts) == 2 and "(" in parts[1] and not parts[1].startswith(("+++", "---")):
+                        calls.append(parts[1].split("(", 1)[0].strip())
+        except OSError:
+            pass
+        return work, r, calls
+
+    work0, r0, calls = attempt(0, "sc_count")
+    # the child's own report on stdout is not part of the update
+    calls = [c for c in calls if c != "write"]
+    total = len(calls)
+    shutil.rmtree(work0, ignore_errors=True)
+    if r0.returncode not in (0, 3) or b"returned" not in r0.stdout and b"raised" not in r0.stdout:
+        raise RuntimeError("store child failed: rc=%s %s" % (r0.returncode, r0.stderr[-400:]))
+    if total == 0:
+        out.label("syscall_crash_no_writes")
+        return False
+    n = 1 + selector % total
+    work, r, _ = attempt((calls[n - 1], calls[:n].count(calls[n - 1])), "sc_kill")
+    try:
+        killed = r.returncode in (-9, 137)
+        out.label("syscall_crash:" + ("killed" if killed else "completed"), "syscall_crash_kind=" + kind)
+        journal = os.path.exists(os.path.join(work, "axolotl.db-journal"))
+        if journal:
+            out.label("syscall_crash_left_a_journal")
+        try:
+            s2 = LiteAxolotlStore(os.path.join(work, "axolotl.db"))
+            got = read_store(s2, P)
+            _close(s2)
+        except Exception as e:
+            out.fail("crash", "syscall_crash:%s:store_does_not_open" % kind, {"at": n, "of": total, "error": repr(e)[:300], "journal_left": journal})
+            return True
+        d = compare(got, exp_before, own, allow)
+        if d:
+            out.fail("crash", "syscall_crash:%s:%s" % (kind, "record_missing" if "MISSING" in d else "record_differs"),
+                     {"at": n, "of": total, "diff": d[:300], "journal_left": journal})
+            return True
+        import sqlite3
+        con = sqlite3.connect(os.path.join(work, "axolotl.db"))
+        try:
+            res = con.execute("PRAGMA integrity_check").fetchall()
+        except Exception as e:
+            res = [(repr(e),)]
+        finally:
+            con.close()
+        if res != [("ok",)]:
+            out.fail("crash", "syscall_crash:%s:database_damaged" % kind, {"at": n, "of": total, "integrity_check": str(res)[:300],
+                                                                         "journal_left": journal})
+            return True
+        return False
+    finally:
+        shutil.rmtree(work, ignore_errors=True)
+
+
 def run_case(case):
     out = Outcome()
     P = pool()
@@ -219,6 +320,7 @@ def run_case(case):
             before = model.copy()
             allow = None
             fn = None
+            spec = None
             if kind == "save_identity":
                 c = CONTACTS[op[1] % len(CONTACTS)]
                 k = op[2] % len(P["ids"])
@@ -226,6 +328,7 @@ def run_case(case):
                 model.identities[c] = k
                 allow = ("identities", {c: {k} | ({old} if old is not None else {ABSENT})})
                 fn = lambda: store.saveIdentity(c, P["ids"][k])  # noqa
+                spec = {"call": "saveIdentity", "c": c, "record": bytes(P["ids"][k].serialize()).hex()}
                 out.label("replace_identity" if old is not None else "new_identity")
                 repl = old is not None
             elif kind == "store_session":
@@ -236,6 +339,7 @@ def run_case(case):
                 model.sessions[c] = new
                 allow = ("sessions", {c: {new} | ({old} if old is not None else {ABSENT})})
                 fn = lambda: store.storeSession(c, 1, rec)  # noqa
+                spec = {"call": "storeSession", "c": c, "device": 1, "record": new.hex()}
                 out.label("replace_session" if old is not None else "new_session")
                 repl = old is not None
             elif kind == "store_session_other_device":
@@ -248,6 +352,7 @@ def run_case(case):
                 old = before.sessions[c]
                 allow = ("sessions", {c: {old}})
                 fn = lambda: store.storeSession(c, 2, rec)  # noqa
+                spec = {"call": "storeSession", "c": c, "device": 2, "record": bytes(rec.serialize()).hex()}
                 may_refuse = ("sessions", c, old)
                 out.label("store_session_other_device")
                 repl = False
@@ -257,6 +362,7 @@ def run_case(case):
                 model.sessions.pop(c, None)
                 allow = ("sessions", {c: {ABSENT} | ({old} if old is not None else set())})
                 fn = (lambda: store.deleteSession(c, 1)) if kind == "delete_session" else (lambda: store.deleteAllSessions(c))  # noqa
+                spec = {"call": "deleteSession" if kind == "delete_session" else "deleteAllSessions", "c": c}
                 out.label("delete_session")
                 repl = False
                 deleted_before_reopen = deleted_before_reopen or old is not None
@@ -269,6 +375,7 @@ def run_case(case):
                 model.prekeys[pk.getId()] = new
                 allow = ("prekeys", {pk.getId(): {ABSENT, new}})
                 fn = lambda: store.storePreKey(pk.getId(), pk)  # noqa
+                spec = {"call": "storePreKey", "id": pk.getId(), "record": new[0].hex()}
                 out.label("store_prekey")
                 repl = False
             elif kind == "remove_prekey":
@@ -280,6 +387,7 @@ def run_case(case):
                 removed_prekeys.append(i)
                 allow = ("prekeys", {i: {ABSENT, old}})
                 fn = lambda: store.removePreKey(i)  # noqa
+                spec = {"call": "removePreKey", "id": i}
                 out.label("remove_prekey")
                 repl = False
                 deleted_before_reopen = True
@@ -302,6 +410,7 @@ def run_case(case):
                     amap[i] = {old, (old[0], True)}
                 allow = ("prekeys", amap)
                 fn = lambda: store.preKeyStore.setAsSent(chosen)  # noqa
+                spec = {"call": "setAsSent", "ids": chosen}
                 out.label("set_sent")
                 repl = False
             elif kind == "store_signed":
@@ -313,6 +422,7 @@ def run_case(case):
                 model.signed[spk.getId()] = new
                 allow = ("signed", {spk.getId(): {ABSENT, new}})
                 fn = lambda: store.storeSignedPreKey(spk.getId(), spk)  # noqa
+                spec = {"call": "storeSignedPreKey", "id": spk.getId(), "record": new.hex()}
                 out.label("store_signed")
                 repl = False
             elif kind in ("restore_signed", "restore_prekey"):
@@ -329,11 +439,13 @@ def run_case(case):
                     new = bytes(other.serialize())
                     model.signed[i] = new
                     fn = lambda: store.storeSignedPreKey(i, other)  # noqa
+                    spec = {"call": "storeSignedPreKey", "id": i, "record": new.hex()}
                 else:
                     other = P["prekeys"][(op[2] if len(op) > 2 else 0) % len(P["prekeys"])]
                     new = (bytes(other.serialize()), False)
                     model.prekeys[i] = new
                     fn = lambda: store.storePreKey(i, other)  # noqa
+                    spec = {"call": "storePreKey", "id": i, "record": new[0].hex()}
                 allow = (table, {i: {old, new}})
                 may_refuse = (table, i, old)
                 out.label(kind)
@@ -346,6 +458,7 @@ def run_case(case):
                 del model.signed[i]
                 allow = ("signed", {i: {ABSENT, old}})
                 fn = lambda: store.removeSignedPreKey(i)  # noqa
+                spec = {"call": "removeSignedPreKey", "id": i}
                 out.label("remove_signed")
                 repl = False
                 deleted_before_reopen = True
@@ -359,6 +472,7 @@ def run_case(case):
                 allow = ("sender", {(g, s): {new} | ({old} if old is not None else {ABSENT})})
                 name = SenderKeyName(g, AxolotlAddress(s, 0))
                 fn = lambda: store.storeSenderKey(name, rec)  # noqa
+                spec = {"call": "storeSenderKey", "g": g, "s": s, "record": new.hex()}
                 out.label("replace_sender_key" if old is not None else "new_sender_key")
                 repl = old is not None
             elif kind == "reopen":
@@ -374,6 +488,15 @@ def run_case(case):
                 continue
             else:
                 raise ValueError(kind)
+            # the same update in a process of its own that is killed at a write-type system call (also inside COMMIT)
+            if case.get("syscall_crash") and spec is not None and step == case["syscall_crash"][0] % len(case["ops"]):
+                _close(store)
+                problem = _syscall_crash(out, dbdir, home, spec, case["syscall_crash"][1], kind, P, expect_of(before), own, allow)
+                store = LiteAxolotlStore(dbpath)
+                if problem:
+                    return out
+                if "syscall_crash:killed" in out.labels:
+                    nt = True
             # execute (under the recorder)
             if crash:
                 rec_ = CrashRecorder(dbdir, snaproot)
@@ -494,12 +617,30 @@ def _enum_basic():
                                     ["store_session", 1, 3], ["delete_all", 1], ["reopen"]]}
 
 
+def _enum_syscall_crash():
+    """the update of the last step in a process of its own, killed at each of its write-type system calls in turn"""
+    scripts = [
+        [["store_session", 0, 0], ["store_session", 0, 1]],
+        [["store_session", 0, 5], ["store_session", 1, 2], ["store_session", 0, 3]],
+        [["save_identity", 0, 0], ["save_identity", 0, 1]],
+        [["store_sender_key", 0, 0, 0], ["store_sender_key", 0, 0, 1]],
+        [["store_prekey"], ["store_prekey"], ["store_prekey"], ["set_sent", [0, 1, 2]]],
+        [["store_session", 0, 0], ["store_session", 1, 2], ["delete_all", 0]],
+        [["store_signed"], ["store_prekey"], ["store_prekey"], ["remove_prekey", 0]],
+    ]
+    for ops in scripts:
+        for n in range(27):
+            yield {"sub": "script", "crash": False, "syscall_crash": [len(ops) - 1, n], "ops": ops}
+
+
 def plan(tier):
     quick = tier == "quick"
-    script = st.lists(op_strategy(), min_size=1, max_size=14).map(lambda ops: {"sub": "script", "ops": ops})
+    script = st.builds(lambda ops, sc: dict({"sub": "script", "ops": ops}, **({"syscall_crash": sc} if sc else {})),
+                       st.lists(op_strategy(), min_size=1, max_size=14),
+                       st.one_of(st.none(), st.none(), st.tuples(st.integers(0, 13), st.integers(0, 40)).map(list)))
     return {
         "shards": 16,
-        "enumerations": [("basic_scripts", _enum_basic)],
+        "enumerations": [("basic_scripts", _enum_basic), ("syscall_crash_sweep", _enum_syscall_crash)],
         "strategies": [("scripts", script, 60 if quick else 1500)],
         "shrink": "ddmin",
         "budget_s": 150 if quick else 1500,
